@@ -474,3 +474,123 @@ Proof.
   reflexivity.
 Qed.
 End C06Real.
+
+(* ------------------------------------------------------------------ *)
+(* 4. C15 over R: combinations of Gauss/Jets.v, stress tensor, force, Hessian *)
+(* ------------------------------------------------------------------ *)
+Definition axn (k : SJ.axis) : nat := match k with SJ.AX => 0 | SJ.AY => 1 | SJ.AZ => 2 end%nat.
+Lemma osucc_bump k (o : ord) : SJ.osucc k o = bump (axn k) o.
+Proof. destruct k, o as [[a b] c]; reflexivity. Qed.
+
+(* the rationals inside R *)
+Definition injR (q : Qc) : R := Q2R (this q).
+Lemma injR_qhom : SJ.is_qhom RK injR.
+Proof.
+  unfold SJ.is_qhom, injR. split; [|split].
+  - cbn. unfold Q2R. cbn. field.
+  - intros a b. cbn [fadd RK]. rewrite <- Q2R_plus. apply Qeq_eqR. exact (Qred_correct (this a + this b)).
+  - intros a b. cbn [fmul RK]. rewrite <- Q2R_mult. apply Qeq_eqR. exact (Qred_correct (this a * this b)).
+Qed.
+Lemma injR_half : injR ST.qhalf = / 2.
+Proof. unfold injR, ST.qhalf, Q2R. cbn. field. Qed.
+Definition RKr : is_ring RK := F_R RK_field.
+
+(* derivative of a function on R^3 along one axis *)
+Definition is_pderiv (k : SJ.axis) (F : R -> R -> R -> R) (x y z d : R) : Prop :=
+  match k with
+  | SJ.AX => is_derive (fun t => F t y z) x d
+  | SJ.AY => is_derive (fun t => F x t z) y d
+  | SJ.AZ => is_derive (fun t => F x y t) z d
+  end.
+Lemma is_pderiv_eq k F x y z d d' : is_pderiv k F x y z d -> d = d' -> is_pderiv k F x y z d'.
+Proof. intros D <-. exact D. Qed.
+Lemma is_pderiv_pdk k F x y z d : is_pderiv k F x y z d -> pdk (axn k) F x y z = d.
+Proof. destruct k; cbn [is_pderiv axn pdk]; apply is_derive_unique. Qed.
+
+Section C15Real.
+Variable H : fam.
+Hypothesis Hc : closed H.
+Variables alpha beta : R.
+
+(* the value of a combination, as a function of the point *)
+Definition evR (l : SJ.comb) (x y z : R) : R := SJ.eval RK injR alpha beta (at_pt H x y z) l.
+Definition evqR (l : SJ.qcomb) (x y z : R) : R := SJ.evalq RK injR (at_pt H x y z) l.
+
+(* the formal total derivative dk of ANY combination is its real partial derivative *)
+Theorem evR_dk (l : SJ.comb) k x y z : is_pderiv k (evR l) x y z (evR (SJ.dk k l) x y z).
+Proof.
+  induction l as [|[c [a b]] r IH].
+  - destruct k; cbn [is_pderiv]; apply (is_derive_const (0 : R)).
+  - destruct (Hc a b x y z) as [X [Y Z]].
+    assert (E : evR (SJ.dk k ((c, (a, b)) :: r)) x y z
+                = SJ.cev RK injR alpha beta c * DF (axn k) H a b x y z + evR (SJ.dk k r) x y z).
+    { unfold evR. cbn [SJ.dk flat_map SJ.dkey map app SJ.eval fst snd]. unfold SJ.kev. cbn [fst snd].
+      rewrite !osucc_bump. unfold at_pt, DF.
+      change (fmul RK) with Rmult. change (fadd RK) with Rplus. fold (SJ.dk k r). ring. }
+    refine (is_pderiv_eq _ _ _ _ _ _ _ _ (eq_sym E)). clear E.
+    destruct k; cbn [is_pderiv axn] in *.
+    + apply (is_derive_plus (fun t => SJ.cev RK injR alpha beta c * H a b t y z) (fun t => evR r t y z));
+        [|exact IH].
+      apply (is_derive_scal (fun t => H a b t y z) x (SJ.cev RK injR alpha beta c)). exact X.
+    + apply (is_derive_plus (fun t => SJ.cev RK injR alpha beta c * H a b x t z) (fun t => evR r x t z));
+        [|exact IH].
+      apply (is_derive_scal (fun t => H a b x t z) y (SJ.cev RK injR alpha beta c)). exact Y.
+    + apply (is_derive_plus (fun t => SJ.cev RK injR alpha beta c * H a b x y t) (fun t => evR r x y t));
+        [|exact IH].
+      apply (is_derive_scal (fun t => H a b x y t) z (SJ.cev RK injR alpha beta c)). exact Z.
+Qed.
+
+Hypothesis Hs : forall a b x y z, H a b x y z = H b a x y z.
+Let Gs x y z : forall a b : SJ.order, at_pt H x y z a b = at_pt H x y z b a := fun a b => Hs a b x y z.
+
+(* the three quantities as functions of the point *)
+Definition sigmaR (i j : SJ.axis) : R -> R -> R -> R := evR (ST.stress_doc i j).
+Definition forceR (j : SJ.axis) : R -> R -> R -> R := evR (ST.force_doc j).
+Definition ehessR (j k : SJ.axis) : R -> R -> R -> R := evR (ST.hess_doc j k).
+Definition ehess_symR (j k : SJ.axis) : R -> R -> R -> R := evR (ST.hess_symm j k).
+
+Theorem stress_sym_real i j x y z : sigmaR i j x y z = sigmaR j i x y z.
+Proof. apply (SP.stress_sym RK RKr injR injR_qhom alpha beta _ (Gs x y z)). Qed.
+
+(* F_j = - sum_i d/dr_i sigma_ij, the derivatives being real derivatives of the component functions *)
+Theorem force_is_minus_div_stress_real j x y z :
+  ex_derive (fun t => sigmaR SJ.AX j t y z) x
+  /\ ex_derive (fun t => sigmaR SJ.AY j x t z) y
+  /\ ex_derive (fun t => sigmaR SJ.AZ j x y t) z
+  /\ forceR j x y z
+     = - (Derive (fun t => sigmaR SJ.AX j t y z) x + Derive (fun t => sigmaR SJ.AY j x t z) y
+          + Derive (fun t => sigmaR SJ.AZ j x y t) z).
+Proof.
+  pose proof (evR_dk (ST.stress_doc SJ.AX j) SJ.AX x y z) as DX.
+  pose proof (evR_dk (ST.stress_doc SJ.AY j) SJ.AY x y z) as DY.
+  pose proof (evR_dk (ST.stress_doc SJ.AZ j) SJ.AZ x y z) as DZ.
+  cbn [is_pderiv] in DX, DY, DZ.
+  split; [eexists; exact DX|]. split; [eexists; exact DY|]. split; [eexists; exact DZ|].
+  transitivity (- (evR (SJ.dk SJ.AX (ST.stress_doc SJ.AX j)) x y z + evR (SJ.dk SJ.AY (ST.stress_doc SJ.AY j)) x y z
+                   + evR (SJ.dk SJ.AZ (ST.stress_doc SJ.AZ j)) x y z)).
+  - unfold forceR, evR. rewrite (SP.force_eq_def RK RKr injR injR_qhom alpha beta _ (Gs x y z)).
+    unfold ST.force_def. rewrite (SJ.eval_lopp RK RKr injR injR_qhom), (SJ.eval_lsum RK RKr).
+    cbn [SJ.axes fold_right]. change (fadd RK) with Rplus. change (fopp RK) with Ropp. change (f0 RK) with 0. ring.
+  - f_equal. f_equal; [f_equal|]; symmetry; apply is_derive_unique; assumption.
+Qed.
+
+(* H_jk = d/dr_k F_j *)
+Theorem hessian_is_jacobian_of_force_real j k x y z :
+  is_pderiv k (forceR j) x y z (ehessR j k x y z).
+Proof.
+  unfold ehessR, evR. rewrite (SP.hess_eq_def RK RKr injR injR_qhom alpha beta _ (Gs x y z)).
+  unfold ST.hess_def. apply (evR_dk (ST.force_doc j) k x y z).
+Qed.
+
+(* symmetric=True: half the sum of the Jacobian of the force and its transpose *)
+Theorem hessian_symmetrised_real j k x y z :
+  ehess_symR j k x y z = / 2 * (pdk (axn k) (forceR j) x y z + pdk (axn j) (forceR k) x y z)
+  /\ ehess_symR j k x y z = ehess_symR k j x y z.
+Proof.
+  split.
+  - unfold ehess_symR, evR. rewrite (SP.hessian_symmetrised RK RKr injR injR_qhom), injR_half.
+    rewrite (is_pderiv_pdk _ _ _ _ _ _ (hessian_is_jacobian_of_force_real j k x y z)).
+    rewrite (is_pderiv_pdk _ _ _ _ _ _ (hessian_is_jacobian_of_force_real k j x y z)). reflexivity.
+  - apply (SP.hess_symm_sym RK RKr injR injR_qhom alpha beta _ (Gs x y z)).
+Qed.
+End C15Real.
